@@ -1316,12 +1316,16 @@ func esbMetafile(root string, c glueCase, idx int) esbRes {
 		} `json:"inputs"`
 	}
 	json.Unmarshal([]byte(res.Metafile), &mf)
-	rel, _ := filepath.Rel(root, entry)
+	rel, _ := filepath.Rel(root, realpath(entry))
 	in, ok := mf.Inputs[filepath.ToSlash(rel)]
 	if !ok || len(in.Imports) != 1 {
 		return esbRes{errs: []string{"metafile has no single import for the entry"}}
 	}
 	p := in.Imports[0].Path
+	// the metafile path carries the specifier's ?query / #hash suffix; the file is the part before it
+	if i := strings.IndexAny(c.Spec, "?#"); i >= 0 && strings.HasSuffix(p, c.Spec[i:]) {
+		p = strings.TrimSuffix(p, c.Spec[i:])
+	}
 	if in.Imports[0].External {
 		return esbRes{ok: true, path: p, external: true}
 	}
@@ -1411,7 +1415,8 @@ func (t *tree) tagsFor(importerRel, spec string) []string {
 	if strings.Contains(spec, "*") {
 		tags["star-in-specifier"] = true
 	}
-	if strings.Contains(spec, "%") && (strings.HasPrefix(spec, ".") || strings.HasPrefix(spec, "/")) {
+	if strings.Contains(spec, "%") {
+		// relative specifiers, and subpaths of packages without "exports", are URLs for Node's import: percent-decoded (D9)
 		tags["percent-encoded-relative-specifier"] = true
 	}
 	var out []string
@@ -1428,15 +1433,38 @@ func genSpecifiers(r *Rng, t *tree, n int, odd int) []glueCase {
 		"node_modules/pkg-a/node_modules/dep-pkg/index.js"}
 	names := []string{"pkg-a", "pkg-b", "@scope/pkg-s", "dep-pkg", "only-nested", "pkg-l", "dep-of-l", "rootpkg", "misnamed", "other-name", "missing-pkg"}
 	var out []glueCase
+	// Importers are given by their REAL path: without --preserve-symlinks Node
+	// (and esbuild) identify a loaded module by its realpath, so a module never
+	// sees itself at the symlink's location.  Symlinked packages are still
+	// reached through specifiers (pkg-l/...) and by importing from inside the
+	// link target (linked-src/pkg-l/...).
+	canon := func(rel string) string {
+		if r2, err := filepath.Rel(t.root, realpath(filepath.Join(t.root, rel))); err == nil {
+			return r2
+		}
+		return rel
+	}
+	// an importing module exists: a generated file path can be shadowed by a
+	// colliding file/directory of the random tree, such an importer is skipped
+	isFile := func(rel string) bool {
+		fi, err := os.Stat(filepath.Join(t.root, rel))
+		return err == nil && fi.Mode().IsRegular()
+	}
 	for _, f := range fixedSpecs {
+		if !isFile(canon(f.importer)) {
+			continue
+		}
 		for _, k := range []string{"require", "import"} {
-			out = append(out, glueCase{Importer: filepath.Join(t.root, f.importer), Spec: f.spec, Kind: k, via: "grid"})
+			out = append(out, glueCase{Importer: filepath.Join(t.root, canon(f.importer)), Spec: f.spec, Kind: k, via: "grid"})
 		}
 	}
 	n += len(out)
 	for len(out) < n {
-		imp := r.Pick(importers)
+		imp := canon(r.Pick(importers))
 		kind := r.Pick([]string{"require", "import"})
+		if !isFile(imp) {
+			imp = "src/main.js"
+		}
 		var spec, via string
 		switch k := r.Intn(100); {
 		case k < 55: // bare, through the package's exports map when it has one
@@ -1502,6 +1530,10 @@ func genSpecifiers(r *Rng, t *tree, n int, odd int) []glueCase {
 func realpath(p string) string {
 	if q, err := filepath.EvalSymlinks(p); err == nil {
 		return q
+	}
+	// the file itself may not exist: resolve the symlinks of the longest existing prefix
+	if d := filepath.Dir(p); d != p {
+		return filepath.Join(realpath(d), filepath.Base(p))
 	}
 	return p
 }
@@ -1651,6 +1683,7 @@ var witnesses = []witness{
 	{"imports-specifier-hash-slash", "hash-slash", nil, "#/a", []string{"a.js"}, jobj("#/*", "./*.js"), nil},
 	{"imports-target-is-url", "url-target", nil, "#fs", nil, jobj("#fs", "node:fs"), nil},
 	{"star-in-specifier", "star-in-specifier", jobj("./index/*/b", "./index/index.mjs"), "pkg/index/*/b", []string{"index/index.mjs"}, nil, nil},
+	{"percent-encoded-subpath-no-exports", "percent-encoded-relative-specifier", nil, "pkgn/lib/%61.js", []string{"node_modules/pkgn/lib/a.js", "node_modules/pkgn/package.json"}, nil, []string{"import"}},
 	{"percent-encoded-relative-import", "percent-encoded-relative-specifier", nil, "./%75til.js", []string{"util.js"}, nil, []string{"import"}},
 }
 
